@@ -170,53 +170,64 @@ Section Conv.
     | _ => false
     end.
 
+  (* the loop over the children of one operand node *)
+  Definition chain_inner_step {S : Type} (c : ctx) (op_conv : S -> bundle -> S * option doc)
+      (rhs_conv : ctx -> bundle -> M (option doc)) (st2 : chain * bool * bool * S) (child : bundle)
+      : M (chain * bool * bool * S) :=
+    let '(ch, can_attach, seen_op, s) := st2 in
+    let '(s, oc) := op_conv s child in
+    match oc with
+    | Some op => ret (mk_chain (ch_items ch ++ [COp op]) (ch_op_num ch) (ch_has_comment ch), can_attach, true, s)
+    | None =>
+        if is_comment_b child then
+          d <- convert_comment child ;;
+          ret (mk_chain (ch_items ch ++ [if can_attach then CAttached d else CComment d])
+                        (ch_op_num ch) true, can_attach, seen_op, s)
+        else if kind_eqb (bk child) KSpace then
+          if has_lb (tx child) then
+            let ch' := if chain_last_is_comment (ch_items ch)
+                       then mk_chain (ch_items ch ++ [CLinebreak]) (ch_op_num ch) (ch_has_comment ch)
+                       else ch in
+            ret (ch', false, seen_op, s)
+          else ret (ch, can_attach, seen_op, s)
+        else if seen_op then
+          o <- rhs_conv c child ;;
+          match o with
+          | Some rhs => ret (mk_chain (ch_items ch ++ [CBody rhs]) (ch_op_num ch) (ch_has_comment ch), true, seen_op, s)
+          | None => ret (ch, can_attach, seen_op, s)
+          end
+        else ret (ch, can_attach, seen_op, s)
+    end.
+
+  (* one node of the resolved chain: an operand node contributes its operator and right-hand side,
+     any other node is converted by the fallback and glued to the last body *)
+  Definition chain_outer_step {S : Type} (c : ctx)
+      (operand_pred : bundle -> bool) (op_conv : S -> bundle -> S * option doc)
+      (rhs_conv : ctx -> bundle -> M (option doc))
+      (fallback : ctx -> bundle -> M (option doc)) (st : chain * bool * S) (node : bundle) : M (chain * bool * S) :=
+    let '(ch, can_attach, s) := st in
+    if operand_pred node then
+      let ch0 := mk_chain (ch_items ch) (ch_op_num ch + 1) (ch_has_comment ch) in
+      r <- foldM (chain_inner_step c op_conv rhs_conv) (bkids node) (ch0, can_attach, false, s) ;;
+      let '(ch1, can_attach1, _, s1) := r in
+      ret (ch1, can_attach1, s1)
+    else
+      o <- fallback c node ;;
+      match o with
+      | Some fb =>
+          match rev (ch_items ch) with
+          | CBody body :: r =>
+              ret (mk_chain (rev r ++ [CBody (append body fb)]) (ch_op_num ch) (ch_has_comment ch), can_attach, s)
+          | _ => ret (mk_chain (ch_items ch ++ [CBody fb]) (ch_op_num ch) (ch_has_comment ch), can_attach, s)
+          end
+      | None => ret (ch, can_attach, s)
+      end.
+
   Definition chain_process {S : Type} (c : ctx) (nodes : list bundle) (s0 : S)
       (operand_pred : bundle -> bool) (op_conv : S -> bundle -> S * option doc)
       (rhs_conv : ctx -> bundle -> M (option doc))
       (fallback : ctx -> bundle -> M (option doc)) : M chain :=
-    r <- foldM (fun (st : chain * bool * S) (node : bundle) =>
-          let '(ch, can_attach, s) := st in
-          if operand_pred node then
-            let ch0 := mk_chain (ch_items ch) (ch_op_num ch + 1) (ch_has_comment ch) in
-            r <- foldM (fun (st2 : chain * bool * bool * S) (child : bundle) =>
-                  let '(ch, can_attach, seen_op, s) := st2 in
-                  let '(s, oc) := op_conv s child in
-                  match oc with
-                  | Some op => ret (mk_chain (ch_items ch ++ [COp op]) (ch_op_num ch) (ch_has_comment ch), can_attach, true, s)
-                  | None =>
-                      if is_comment_b child then
-                        d <- convert_comment child ;;
-                        ret (mk_chain (ch_items ch ++ [if can_attach then CAttached d else CComment d])
-                                      (ch_op_num ch) true, can_attach, seen_op, s)
-                      else if kind_eqb (bk child) KSpace then
-                        if has_lb (tx child) then
-                          let ch' := if chain_last_is_comment (ch_items ch)
-                                     then mk_chain (ch_items ch ++ [CLinebreak]) (ch_op_num ch) (ch_has_comment ch)
-                                     else ch in
-                          ret (ch', false, seen_op, s)
-                        else ret (ch, can_attach, seen_op, s)
-                      else if seen_op then
-                        o <- rhs_conv c child ;;
-                        match o with
-                        | Some rhs => ret (mk_chain (ch_items ch ++ [CBody rhs]) (ch_op_num ch) (ch_has_comment ch), true, seen_op, s)
-                        | None => ret (ch, can_attach, seen_op, s)
-                        end
-                      else ret (ch, can_attach, seen_op, s)
-                  end) (bkids node) (ch0, can_attach, false, s) ;;
-            let '(ch1, can_attach1, _, s1) := r in
-            ret (ch1, can_attach1, s1)
-          else
-            o <- fallback c node ;;
-            match o with
-            | Some fb =>
-                match rev (ch_items ch) with
-                | CBody body :: r =>
-                    ret (mk_chain (rev r ++ [CBody (append body fb)]) (ch_op_num ch) (ch_has_comment ch), can_attach, s)
-                | _ => ret (mk_chain (ch_items ch ++ [CBody fb]) (ch_op_num ch) (ch_has_comment ch), can_attach, s)
-                end
-            | None => ret (ch, can_attach, s)
-            end)
-        nodes (chain_new, false, s0) ;;
+    r <- foldM (chain_outer_step c operand_pred op_conv rhs_conv fallback) nodes (chain_new, false, s0) ;;
     ret (fst (fst r)).
 
   Definition chain_doc (ch : chain) (sty : chain_style) : M doc := lift (chain_print_doc swidth tab ch sty).
